@@ -810,6 +810,77 @@ def chain(c):
             'count': {'conversions': done}}
 
 
+# ------------------------------------------------- E2: histories on one object
+FN_E3 = 'mc.checks.c17_io:sim_history'
+HIST_OPS = ([f'to_file:{f}:{w}' for f in FORMATS
+             for w in ('computed', 'results', 'plain')] +
+            [f'save:{f}' for f in FORMATS] +
+            [f'to_dict:{w}' for w in ('computed', 'results', 'all', 'plain')] +
+            [f'copy:{w}' for w in ('computed', 'results', 'all', 'plain')])
+
+
+def _product(sim, op, tmp, tag):
+    """What the serialising operation `op` produces (as a to_dict tree)."""
+    import emg3d
+    parts = op.split(':')
+    if parts[0] == 'to_file':
+        fn = os.path.join(tmp, f'{tag}.{parts[1]}')
+        sim.to_file(fn, what=parts[2], name='obj', verb=0)
+        return type(sim).from_file(fn, name='obj', verb=0).to_dict('computed')
+    if parts[0] == 'save':
+        fn = os.path.join(tmp, f'{tag}.{parts[1]}')
+        emg3d.save(fn, obj=sim, verb=0)
+        return emg3d.load(fn, verb=0)['obj'].to_dict('computed')
+    if parts[0] == 'to_dict':
+        return sim.to_dict(parts[1], copy=True)
+    if parts[0] == 'copy':
+        return sim.copy(parts[1]).to_dict('computed')
+    raise ValueError(op)
+
+
+def _strip_times(x):
+    """Drop wall-clock dependent entries of the solver info dicts."""
+    if isinstance(x, dict):
+        return {k: _strip_times(v) for k, v in x.items()
+                if k not in ('time', 'runtime_at_cycle', 'log')}
+    return x
+
+
+def sim_history(c):
+    """A serialising operation must produce the same thing whatever
+    serialising operations were applied to the same object before: the last
+    operation of the history is repeated on a twin object without history."""
+    spec, hist = c['obj'], list(c['hist'])
+    viol = []
+    n = 0
+    with tempfile.TemporaryDirectory(prefix='c17h_') as tmp, \
+            warnings.catch_warnings():
+        warnings.simplefilter('ignore')
+        sim = build(spec, tmp)
+        twin = build(spec, tmp)
+        try:
+            for i, op in enumerate(hist[:-1]):
+                _product(sim, op, tmp, f'h{i}')
+            got = _product(sim, hist[-1], tmp, 'last')
+            want = _product(twin, hist[-1], tmp, 'twin')
+        except Exception as e:  # noqa
+            return {'viol': [{'cls': f'history-raises-{type(e).__name__}',
+                              'what': f'{hist}: {str(e)[:200]}'}]}
+        d = Diff()
+        compare(_strip_times(want), _strip_times(got), 'obj', d)
+        n = d.n
+        seen = set()
+        for cls, path, what in d.items:
+            if cls in seen:
+                continue
+            seen.add(cls)
+            viol.append({'cls': 'serialisation-depends-on-history-' + cls,
+                         'what': f'{describe(spec)} history {hist}: {path}: '
+                                 f'{what}'})
+    return {'viol': viol, 'compared': n, 'transitions': len(hist),
+            'nontrivial': len(hist) > 1, 'outcome': (hist[-1], n)}
+
+
 def chains_of(length):
     """All maximal chains: every step goes to another format."""
     out = []
@@ -866,6 +937,22 @@ def run(ctx):
                          'emg3d.save/load (+ to_file/from_file for Survey '
                          'and Simulation); non-trivial = file written',
                     time_cap=cap*0.4)
+    if ctx.wants('histories'):
+        import itertools
+        depth = 2 if ctx.quick else 3
+        hspecs = [sp for sp in specs if sp['kind'] == 'simulation' and
+                  sp.get('variant') in ('gradient', 'file')
+                  and sp.get('what', 'computed') == 'computed'][
+                      :1 if ctx.quick else 2]
+        cases = [{'obj': sp, 'hist': list(h)} for sp in hspecs
+                 for L in range(1, depth+1)
+                 for h in itertools.product(HIST_OPS, repeat=L)]
+        ctx.explore('histories', FN_E3, cases, engine='E2',
+                    rule=f'all sequences of <= {depth} serialising operations '
+                         f'({len(HIST_OPS)}: to_file x9, save x3, to_dict x4, '
+                         'copy x4) on one computed Simulation; the last '
+                         'product must equal that of a twin without history',
+                    time_cap=cap*0.5)
     if ctx.wants('chains'):
         length = 3 if ctx.quick else 4
         cases = []
